@@ -643,9 +643,33 @@ class State:
                 self.rel[(t, nt)] = min(self.rel.get((t, nt), 0), 0)
                 self.rel[(nt, t)] = min(self.rel.get((nt, t), 0), 0)
 
+    def tighten(self):
+        """one round of interval propagation along the relations (x - y <= c: hi(x) <= hi(y) + c, lo(y) >= lo(x) - c); the facts
+        are implied, so adding them in place is sound.  Done before a join, where a relation that pins an interval on one side
+        only would otherwise be averaged away."""
+        if self.bottom or not self.rel:
+            return
+        for (x, y), c in list(self.rel.items()):
+            ix, iy = self.iv.get(x, FULL), self.iv.get(y, FULL)
+            if iy[1] is not None and (ix[1] is None or iy[1] + c < ix[1]):
+                self.iv[x] = (ix[0], iy[1] + c)
+                ix = self.iv[x]
+            if ix[0] is not None and (iy[0] is None or ix[0] - c > iy[0]):
+                self.iv[y] = (ix[0] - c, iy[1])
+        for t, i in self.iv.items():
+            if i[0] is not None and i[1] is not None and i[0] > i[1]:
+                self.bottom = True
+                return
+
     # ---- lattice -----------------------------------------------------------
     def join(self, other):
         """least upper bound (in place on a copy); returns new State"""
+        if self.bottom:
+            return other.copy()
+        if other.bottom:
+            return self.copy()
+        self.tighten()
+        other.tighten()
         if self.bottom:
             return other.copy()
         if other.bottom:
